@@ -1,7 +1,7 @@
 (* C05 -- property theorems only.  Proofs live in C05/Proofs*.v. *)
 From Coq Require Import NArith List Bool.
 From DV Require Import Base.Outcome Base.Bytes Base.Names Base.PName
-  C05.Schema C05.Gen C05.Model C05.OptModel C05.SvcModel C05.ProofsA C05.ProofsB C05.ProofsC C05.ProofsD C05.ProofsE C05.ProofsF C05.ProofsG C05.ProofsH C05.Proofs C05.ProofsI.
+  C05.Schema C05.Gen C05.Model C05.OptModel C05.SvcModel C05.SvcBuf C05.ProofsA C05.ProofsB C05.ProofsC C05.ProofsD C05.ProofsE C05.ProofsF C05.ProofsG C05.ProofsH C05.Proofs C05.ProofsI C05.ProofsJ C05.ProofsK C05.ProofsL C05.ProofsM.
 Import ListNotations.
 Local Open Scope N_scope.
 
@@ -279,3 +279,85 @@ Theorem C05_tlsgroups_from_keys :
   (forall ks, ks <> [] -> rest_check KGroups (groups_from_keys ks) = None).
 Proof. exact (conj tlsgroups_from_keys_refuted tlsgroups_from_keys_sound). Qed.
 Print Assumptions C05_tlsgroups_from_keys.
+
+(* the message name reader returns valid names (imported from C01_parse_ref_sound) ... *)
+Theorem C05_pname_dec_sound : dec_sound_in pname_dec /\ forall strict, dec_sound_in (pname_nc_dec strict).
+Proof. exact (conj pname_dec_sound pname_nc_dec_sound). Qed.
+Print Assumptions C05_pname_dec_sound.
+
+(* ... so RDATA accepted from a message, embedded names possibly compressed,
+   re-composes (uncompressed) to octets that the same reader parses to the same
+   value: no hypothesis about the reader is left *)
+Theorem C05_table_recompose_compressed : forall t s m pos lim v pre post,
+  schema_of t = Some s -> wf_bytes m -> lim <= mlen m ->
+  parse_rdata pname_dec s m pos lim = Ok v ->
+  total_len s v <= 65535 ->
+  parse_rdata pname_dec s (pre ++ compose s v ++ post) (len pre) (len pre + len (compose s v)) = Ok v.
+Proof. exact table_recompose_compressed. Qed.
+Print Assumptions C05_table_recompose_compressed.
+
+(* compressing targets: whenever rdlen(compress) answers a number, exactly that
+   many octets are written, whatever the compressor does with compressible names *)
+Theorem C05_rdlen_some_is_written : forall s v compress n,
+  wf_value s v = true -> rdlen s compress v = Ok (Some n) ->
+  forall cmp, (compress = false -> cmp = None) -> len (compose_on cmp s v) = n.
+Proof. exact rdlen_some_is_written. Qed.
+Print Assumptions C05_rdlen_some_is_written.
+
+Theorem C05_table_rdlen_compress : forall t s v n cmp,
+  schema_of t = Some s -> wf_value s v = true -> rdlen s true v = Ok (Some n) ->
+  compose_on cmp s v = compose s v /\ len (compose s v) = n /\ has_compressible s = false.
+Proof. exact table_rdlen_compress. Qed.
+Print Assumptions C05_table_rdlen_compress.
+
+(* the model's canonical names are what the helpers behind compose_canonical
+   write (T1: every label through Label::compose_canonical, every octet lower-cased) *)
+Theorem C05_canon_is_helper : forall n,
+  Gen.canonical_helpers_lower_all_labels = true ->
+  wire_abs (canon n) = concat (map (fun l => N.of_nat (length l) :: map lower l) n) ++ [0].
+Proof. exact canon_is_helper. Qed.
+Print Assumptions C05_canon_is_helper.
+
+(* one witness per known class ctor_long_<TYPE>: the constructor accepts, rdlen() panics *)
+Theorem C05_ctor_long_refuted :
+  (exists v, ctor_accepts (plain [U8; U8; U8; Rest]) v = true /\ rdlen (plain [U8; U8; U8; Rest]) false v = Panic P_LONG) /\      (* TLSA *)
+  (exists v, ctor_accepts (plain [U8; U8; Rest]) v = true /\ rdlen (plain [U8; U8; Rest]) false v = Panic P_LONG) /\              (* SSHFP *)
+  (exists v, ctor_accepts (plain [Rest]) v = true /\ rdlen (plain [Rest]) false v = Panic P_LONG) /\                              (* OPENPGPKEY *)
+  (exists v, ctor_accepts (plain [U32; U8; U8; FRest 12]) v = true /\ rdlen (plain [U32; U8; U8; FRest 12]) false v = Panic P_LONG) /\  (* ZONEMD *)
+  (exists v, ctor_accepts (plain [U8; CaaTagStr; Rest]) v = true /\ rdlen (plain [U8; CaaTagStr; Rest]) false v = Panic P_LONG) /\ (* CAA *)
+  (exists v, ctor_accepts (ipseckey_schema 0) v = true /\ rdlen (ipseckey_schema 0) false v = Panic P_LONG).                      (* IPSECKEY *)
+Proof.
+  repeat split; eexists.
+  - exact (proj2 ctor_long_TLSA_refuted).
+  - exact (proj2 ctor_long_SSHFP_refuted).
+  - exact (proj2 ctor_long_OPENPGPKEY_refuted).
+  - exact (proj2 ctor_long_ZONEMD_refuted).
+  - exact (proj2 ctor_long_CAA_refuted).
+  - exact ctor_long_IPSECKEY_refuted.
+Qed.
+Print Assumptions C05_ctor_long_refuted.
+
+(* IPSECKEY exclusion theorem: what Ipseckey::new accepts round-trips with an
+   exact length unless it is over-long or key-less with a key algorithm *)
+Theorem C05_ipseckey_ctor_sound : forall g v pre post,
+  g <= 3 -> ctor_accepts (ipseckey_schema g) v = true ->
+  overlong (ipseckey_schema g) v = false -> post_ok (PIpseckey g) v = true ->
+  ipseckey_parse (pre ++ compose (ipseckey_schema g) v ++ post) (len pre)
+    (len pre + len (compose (ipseckey_schema g) v)) = Ok v /\
+  rdlen (ipseckey_schema g) false v = Ok (Some (len (compose (ipseckey_schema g) v))).
+Proof. exact ipseckey_ctor_sound. Qed.
+Print Assumptions C05_ipseckey_ctor_sound.
+
+(* PARTIAL: the in-buffer representation of SvcParamsBuilder (physical order,
+   predecessor/successor scan, slot fix-up, freeze along the chain) gives what
+   the sorted association list gives -- for every push sequence of length <= 5
+   over 5 keys, duplicates included (complete enumeration); not yet by
+   induction for every push order *)
+Theorem C05_inbuf_refines_list_bounded : forall s,
+  In s (seqs 5 [0; 1; 2; 3; 4]) ->
+  match svc_build (map opt_of_key s) with
+  | Some b => inbuf_build (map opt_of_key s) = Some (Ok b)
+  | None => inbuf_build (map opt_of_key s) = None
+  end.
+Proof. exact inbuf_refines_list_bounded. Qed.
+Print Assumptions C05_inbuf_refines_list_bounded.
